@@ -196,8 +196,17 @@ def check(ctx, only_h1: bool = False, h1_rule: str = "C13-H1") -> None:
     from ..rows import package_stores
 
     ctx.rule("C13-H6", "each row variable that is given a confidence is also the target of the demotion under the threshold test", 1)
-    all_conf = [k for k in package_stores(ctx) if k.func is f and k.keytexts & conf and k.kind == "assign"]
-    all_dem = [k for k in package_stores(ctx) if k.func is f and solved in k.keytexts and k.kind == "assign"]
+    # every subscript store of predict, keys evaluated in the environment of the pipeline's stage call
+    from ..rows import KeyStore
+
+    local = []
+    for n in own_nodes(f.node):
+        if isinstance(n, ast.Assign):
+            for t in n.targets:
+                if isinstance(t, ast.Subscript) and not isinstance(t.slice, ast.Slice):
+                    local.append(KeyStore(f, n, t, ctx.ev.eval(t.slice, st.env), n.value, "assign"))
+    all_conf = [k for k in local if k.keytexts & conf]
+    all_dem = [k for k in local if solved in k.keytexts]
     dem_targets = {unparse(k.target.value) for k in all_dem}
     for k in all_conf:
         tv = unparse(k.target.value)
